@@ -18,7 +18,7 @@
 From Coq Require Import NArith List Bool Arith.
 From PS Require Import Base.Chars Base.Outcome.
 Import ListNotations.
-Open Scope nat_scope.
+Local Open Scope nat_scope.
 
 (* a reference string: Python's UUID(s) accepts it (u = canonical text of that UUID) or not *)
 Inductive ref := RId (u : str) | RName (n : str).
@@ -272,7 +272,7 @@ Arguments c_emitted {Q}.
    format, correlation method "test", for the rule shapes the correspondence generates:
    values without characters that need quoting, group-by one plain field name, timespan unit not
    in timespan_mapping (rendered as written). *)
-Open Scope N_scope.
+Local Open Scope N_scope.
 Definition s_eq_open : str := [102; 61; 34].                    (* f= and a double quote *)
 Definition nl : str := [10].
 Fixpoint join (sep : str) (l : list str) : str :=
